@@ -47,6 +47,41 @@ var carriers = []carrier{
 	{"slint", "[]int", "[]int{x, 7}", "v[0]"},
 	{"f64", "float64", "float64(x)", "int(v)"},
 	{"iface", "interface{}", "interface{}(x)", "v.(int)"},
+	// higher-order signatures: a parameter or a RESULT of the original function is itself a function. The id is
+	// carried by a closure (enc) and read back by calling it (dec): a wrapper that returns f's result unchanged
+	// hands that closure through, and one that calls it "on the way" (uncurrying one level too many) changes the
+	// type of the derived function. The function types differ in what a generator could look at: named /
+	// unnamed / blank parameters, names that also occur in the surrounding signature (a, b, f, param_0), several
+	// parameters, named results, variadic, no parameter, two levels, a function parameter, a named function type.
+	{"fnN", "func(x float64) string", "func(float64) string { return strconv.Itoa(x) }", "atoi(v(0))"},
+	{"fnU", "func(string) int", "func(string) int { return x }", "v(\"\")"},
+	{"fnB", "func(_ int8) int", "func(int8) int { return x }", "v(0)"},
+	{"fn2", "func(x int, y string) int", "func(int, string) int { return x }", "v(0, \"\")"},
+	{"fnA", "func(a int, b int) int", "func(int, int) int { return x }", "v(0, 0)"},
+	{"fnF", "func(f int16) int", "func(int16) int { return x }", "v(0)"},
+	{"fnP", "func(param_0 int32, innerParam_0 int32) int", "func(int32, int32) int { return x }", "v(0, 0)"},
+	{"fnR", "func(n uint) (r int, ok bool)", "func(uint) (int, bool) { return x, true }", "func() int { r, _ := v(0); return r }()"},
+	{"fnV", "func(xs ...int) int", "func(...int) int { return x }", "v()"},
+	{"fn0", "func() int", "func() int { return x }", "v()"},
+	{"fnFn", "func(x uint8) func(y uint8) int", "func(uint8) func(uint8) int { return func(uint8) int { return x } }", "v(0)(0)"},
+	{"fnG", "func(g func(z int) int) int", "func(func(int) int) int { return x }", "v(nil)"},
+	{"HF", "HF", "HF(func(int) string { return strconv.Itoa(x) })", "atoi(v(0))"},
+}
+
+// declarations every package needs: the struct of the S carriers and the named function type of HF
+const preamble = "type S struct{ A int }\ntype HF func(x int) string\n"
+
+func isFuncCarrier(c int) bool { return strings.HasPrefix(carriers[c].sym, "fn") || carriers[c].sym == "HF" }
+
+// the function-typed carriers (indices into carriers)
+func funcCarriers() []int {
+	var l []int
+	for i := range carriers {
+		if isFuncCarrier(i) {
+			l = append(l, i)
+		}
+	}
+	return l
 }
 
 type param struct {
@@ -178,6 +213,45 @@ func (s *shape) derivedNames() []string {
 	return nil
 }
 
+// typeAsserts declares, for every derived function of the shape, that it has the type the property speaks of
+// (`var _ T = deriveX`; identity of function types ignores parameter names): the function derived for
+// f : func(A, B) R has exactly the parameters of f, redistributed, and f's results -- Curry func(F) func(A) func(B) R,
+// Flip func(F) func(B, A) R, Apply func(F, B) func(A) R, Uncurry of func(A) func(B) R func(F) func(A, B) R whatever R
+// is (a result of f that is itself a function is a result, not a further level), Tuple func(A, B) func() (A, B).
+// The drivers rely on these types anyway; stating them per function makes a deviation an observation about one
+// shape instead of a package that does not build. Variadic signatures are outside the property: no assertion.
+func (s *shape) typeAsserts() string {
+	if s.variadic {
+		return ""
+	}
+	all := append(append([]param{}, s.outer...), s.inner...)
+	n := len(all)
+	T := s.paramListTypesOnly
+	R := s.resultListTypesOnly()
+	F := s.funcType()
+	var b strings.Builder
+	line := func(name, typ string) { fmt.Fprintf(&b, "var _ %s = %s\n", typ, name) }
+	switch s.plugin {
+	case "curry":
+		line(fmt.Sprintf("deriveCurry%d", s.id), "func("+F+") func("+T(all[:1])+") func("+T(all[1:])+")"+R)
+	case "flip":
+		sw := append([]param{}, all...)
+		sw[0], sw[1] = sw[1], sw[0]
+		line(fmt.Sprintf("deriveFlip%d", s.id), "func("+F+") func("+T(sw)+")"+R)
+	case "apply":
+		line(fmt.Sprintf("deriveApply%d", s.id), "func("+F+", "+T(all[n-1:])+") func("+T(all[:n-1])+")"+R)
+	case "uncurry":
+		line(fmt.Sprintf("deriveUncurry%d", s.id), "func("+F+") func("+T(all)+")"+R)
+	case "rt":
+		curried := "func(" + T(all[:1]) + ") func(" + T(all[1:]) + ")" + R
+		line(fmt.Sprintf("deriveCurry%d", s.id), "func("+F+") "+curried)
+		line(fmt.Sprintf("deriveUncurry%d", s.id), "func("+curried+") func("+T(all)+")"+R)
+	case "tuple":
+		line(fmt.Sprintf("deriveTuple%d", s.id), "func("+T(all)+") func() ("+T(all)+")")
+	}
+	return b.String()
+}
+
 func (s *shape) hasK() bool {
 	for _, l := range [][]param{s.outer, s.inner, s.results} {
 		for _, p := range l {
@@ -208,6 +282,16 @@ func (s *shape) userDecls(b *strings.Builder) {
 	if s.plugin == "apply" {
 		fmt.Fprintf(b, "var l%d %s\nvar _ = l%d\n", s.id, s.goType(s.outer[len(s.outer)-1].c), s.id)
 	}
+}
+
+// the user's declarations and call of this shape alone (for replays)
+func (s *shape) userText() string {
+	var b strings.Builder
+	s.userDecls(&b)
+	b.WriteString("\nfunc use() {\n")
+	s.userCall(&b)
+	b.WriteString("}\n")
+	return b.String()
 }
 
 func (s *shape) userCall(b *strings.Builder) {
@@ -576,10 +660,20 @@ func typeParams(r *hx.Rand, kind string, n int) []int {
 		return cs // all K (index 0)
 	}
 	for i := range cs {
-		cs[i] = 1 + r.Intn(len(carriers)-1)
+		cs[i] = pickCarrier(r)
 	}
 	cs[r.Intn(n)] = 0
 	return cs
+}
+
+// pickCarrier draws a type other than K: one time in four a function type (the hof-* modes go through all of them
+// systematically; drivers full of closures compile more slowly), otherwise one of the first-order types
+func pickCarrier(r *hx.Rand) int {
+	fcs := funcCarriers()
+	if r.Intn(4) == 0 {
+		return fcs[r.Intn(len(fcs))]
+	}
+	return 1 + r.Intn(len(carriers)-len(fcs)-1)
 }
 
 // shift appends suffix to every name that is f followed by underscores (f -> f_, f_ -> f__): for signatures whose
@@ -604,7 +698,7 @@ func mkParams(names []string, cs []int) []param {
 func mkResults(r *hx.Rand, n int, named string) []param {
 	rs := make([]param, n)
 	for i := range rs {
-		rs[i] = param{"", 1 + r.Intn(len(carriers)-1)}
+		rs[i] = param{"", pickCarrier(r)}
 		switch named {
 		case "named":
 			rs[i].name = fmt.Sprintf("r%d", i)
@@ -871,6 +965,76 @@ func genShapes(r *hx.Rand, tier string) []*shape {
 			add(&shape{plugin: "uncurry", mode: "combo", outer: mkParams(out, cs[:1]), inner: mkParams(in, cs[1:]), results: comboResultList(r, nameSet(in))})
 		}
 	}
+	// higher-order signatures (hardening round 5): the original function returns a function, returns one among other
+	// results, or takes one. "Returns its results unchanged" and "Uncurry of Curry of f behaves as f" are about any
+	// result type: a function that f returns is handed through, it is not another level of currying. Every
+	// function-typed carrier appears as the single result of every plugin (for uncurry behind one and two inner
+	// parameters), with the naming modes rotating, so that none of this depends on the random mixed types.
+	fcs := funcCarriers()
+	hofFlat := []string{"named", "common-names", "blank-some", "unnamed", "one-f", "named"}
+	for _, plugin := range []string{"curry", "flip", "apply", "rt"} {
+		for i, fc := range fcs {
+			n := 2 + i%(maxN-1)
+			mode := hofFlat[i%len(hofFlat)]
+			add(&shape{plugin: plugin, mode: "hof-result", outer: mkParams(nameParams(r, mode, n), typeParams(r, typeKinds[i%2], n)), results: []param{{"", fc}}})
+		}
+		for k := 0; k < 3; k++ {
+			n := 2 + k%(maxN-1)
+			fc, fc2 := fcs[r.Intn(len(fcs))], fcs[r.Intn(len(fcs))]
+			// a named function result; a function among / beside other results; functions as parameters
+			add(&shape{plugin: plugin, mode: "hof-result-named", outer: mkParams(nameParams(r, "named", n), typeParams(r, "uniform", n)), results: []param{{"r", fc}}})
+			add(&shape{plugin: plugin, mode: "hof-results", outer: mkParams(nameParams(r, hofFlat[k], n), typeParams(r, "mixed", n)), results: []param{{"", fc}, {"", pickCarrier(r)}}})
+			add(&shape{plugin: plugin, mode: "hof-results", outer: mkParams(nameParams(r, "named", n), typeParams(r, "uniform", n)), results: []param{{"", fc}, {"", fc2}}})
+			ps := mkParams(nameParams(r, hofFlat[k], n), typeParams(r, "uniform", n))
+			ps[r.Intn(n)].c = fc
+			if k == 1 {
+				ps[n-1].c = fc2 // the value apply pre-binds is a function
+			}
+			add(&shape{plugin: plugin, mode: "hof-param", outer: ps, results: mkResults(r, k, "")})
+			ps = mkParams(nameParams(r, "named", n), typeParams(r, "uniform", n))
+			ps[0].c, ps[1].c = fc, fc2
+			add(&shape{plugin: plugin, mode: "hof-param", outer: ps, results: []param{{"", fc}}})
+		}
+	}
+	hofUncurry := []string{"named", "named", "blank-both", "unnamed-both", "blank-inner-some", "unnamed-outer", "outer-f", "inner-f"}
+	umode := func(name string) uncurryMode {
+		for _, m := range uncurryModes {
+			if m.name == name {
+				return m
+			}
+		}
+		return uncurryModes[0]
+	}
+	for i, fc := range fcs {
+		for nin := 1; nin <= 2; nin++ {
+			m := umode(hofUncurry[(i+nin)%len(hofUncurry)])
+			cs := typeParams(r, typeKinds[(i+nin)%2], 1+nin)
+			add(&shape{plugin: "uncurry", mode: "hof-result", outer: mkParams(m.outer(r, 1), cs[:1]), inner: mkParams(m.inner(r, nin), cs[1:]), results: []param{{"", fc}}})
+		}
+		cs := typeParams(r, "uniform", 2)
+		add(&shape{plugin: "uncurry", mode: "hof-result-named", outer: mkParams([]string{"a"}, cs[:1]), inner: mkParams([]string{"b"}, cs[1:]), results: []param{{[]string{"r", "f", "x"}[i%3], fc}}})
+	}
+	for k := 0; k < 4; k++ {
+		nin := 1 + k%(maxN-1)
+		fc, fc2 := fcs[r.Intn(len(fcs))], fcs[r.Intn(len(fcs))]
+		cs := typeParams(r, "uniform", 1+nin)
+		add(&shape{plugin: "uncurry", mode: "hof-results", outer: mkParams([]string{"a"}, cs[:1]), inner: mkParams(innerPlain(r, nin), cs[1:]), results: []param{{"", fc}, {"", fc2}}})
+		// the outer parameter is a function (the inner ones keep the unique type), an inner parameter is one
+		cs = typeParams(r, "uniform", 1+nin)
+		cs[0] = fc
+		add(&shape{plugin: "uncurry", mode: "hof-param", outer: mkParams([]string{[]string{"a", "_", "", "g"}[k]}, cs[:1]), inner: mkParams(innerPlain(r, nin), cs[1:]), results: mkResults(r, k%3, "")})
+		cs = typeParams(r, "uniform", 1+nin)
+		cs[1+r.Intn(nin)] = fc2
+		add(&shape{plugin: "uncurry", mode: "hof-param", outer: mkParams([]string{"a"}, cs[:1]), inner: mkParams(innerPlain(r, nin), cs[1:]), results: []param{{"", fc}}})
+	}
+	// tuples of functions
+	for n := 1; n <= 3; n++ {
+		cs := make([]int, n)
+		for i := range cs {
+			cs[i] = fcs[r.Intn(len(fcs))]
+		}
+		add(&shape{plugin: "tuple", mode: "hof-tuple", outer: mkParams(make([]string, n), cs), tupleCall: n == 2})
+	}
 	// apply also accepts a single parameter (outside the 2..5 of the property, inside the model)
 	add(&shape{plugin: "apply", mode: "named", outer: mkParams([]string{"a"}, []int{0}), results: mkResults(r, 1, "")})
 	for nin := 1; nin <= maxN-1; nin++ {
@@ -1103,7 +1267,7 @@ func Run(cfg hx.Config) (*hx.Meta, error) {
 			return nil, err
 		}
 		var user strings.Builder
-		user.WriteString("package main\n\ntype S struct{ A int }\n\n")
+		user.WriteString("package main\n\n" + preamble + "\n")
 		for _, s := range p.shapes {
 			s.userDecls(&user)
 		}
@@ -1140,7 +1304,7 @@ func Run(cfg hx.Config) (*hx.Meta, error) {
 		var goodGen strings.Builder
 		goodGen.WriteString("package main\n\n")
 		for _, s := range p.shapes {
-			decls := fmt.Sprintf("type S struct{ A int }\ntype K%d int\n", s.id)
+			decls := preamble + fmt.Sprintf("type K%d int\n", s.id)
 			var chunks []string
 			missing := ""
 			for _, dn := range s.derivedNames() {
@@ -1153,8 +1317,20 @@ func Run(cfg hx.Config) (*hx.Meta, error) {
 			ok, why := false, ""
 			if missing != "" {
 				why = "not generated: " + missing
-			} else {
-				ok, why = checkFunc(decls, chunks...)
+			} else if ok, why = checkFunc(decls, chunks...); ok {
+				// the derived function compiles; it must also be the function the property speaks of
+				asserts := s.typeAsserts()
+				chunks = append(chunks, asserts)
+				if ok, why = checkFunc(decls, chunks...); !ok {
+					why = "the derived function does not have the type of a wrapper that only re-plumbs the arguments: " + why
+					if key := "type/" + s.plugin; !vetSamples[key] {
+						vetSamples[key] = true
+						meta.AddDirect(hx.Direct{Class: "c15-derived-type-differs",
+							What: fmt.Sprintf("goderive exits 0 and the function derived by %s for %s compiles, but it is not of the type %s", s.plugin, s.funcType(), strings.TrimSpace(asserts)),
+							Files: map[string]string{"user.go": "package main\n\n" + preamble + s.userText(), "derived.gen.go (this function)": strings.Join(chunks[:len(chunks)-1], "\n")},
+							Cmd:   "goderive . && go vet .   (with `" + strings.TrimSpace(asserts) + "` added to the package)", Output: why})
+					}
+				}
 			}
 			fmt.Fprintf(&obs, "(wf %s %s %d)\n", s.plugin, s.sexp(), b2i(ok))
 			meta.Count("wf/" + s.plugin + "/" + s.mode + fmt.Sprintf("/ok=%d", b2i(ok)))
@@ -1200,7 +1376,7 @@ func Run(cfg hx.Config) (*hx.Meta, error) {
 			return nil, err
 		}
 		var decl, drv strings.Builder
-		decl.WriteString("package main\n\ntype S struct{ A int }\n\n")
+		decl.WriteString("package main\n\n" + preamble + "\n")
 		drv.WriteString(driverHeader)
 		for _, s := range good {
 			fmt.Fprintf(&decl, "type K%d int\n", s.id)
